@@ -182,7 +182,11 @@ struct Ctx<'a> {
 impl<'a> Ctx<'a> {
     /// Run one operation of the code under test: panics become `res:"panic"`, overlong runs are
     /// turned into `res:"hang"` by the watchdog thread (which also ends the worker).
-    fn op<T>(&self, mut ev: Value, f: impl FnOnce() -> (String, T)) -> (String, Option<T>) {
+    fn op<T>(&self, ev: Value, f: impl FnOnce() -> (String, T)) -> (String, Option<T>) {
+        self.op_with(ev, f, |_, _| {})
+    }
+    /// As `op`, with `patch` adding observed fields to the event before it is written.
+    fn op_with<T>(&self, mut ev: Value, f: impl FnOnce() -> (String, T), patch: impl FnOnce(&mut Value, &T)) -> (String, Option<T>) {
         {
             let mut g = self.pending.lock().unwrap();
             *g = Some(Pending { since: Instant::now(), ev: ev.clone() });
@@ -197,15 +201,18 @@ impl<'a> Ctx<'a> {
         };
         ev["res"] = json!(res);
         ev["msg"] = json!(msg);
+        if let Some(v) = &val {
+            patch(&mut ev, v);
+        }
         self.trace.ev(ev);
         (res, val)
     }
 }
 
 /// `Check`: a fresh `Archive::open` of the file, then one Read per universe name and a List.
-fn checkpoint(cx: &Ctx, case: &str, path: &Path, uni: &Uni) {
+fn checkpoint(cx: &Ctx, case: &str, path: &Path, uni: &Uni, fin: bool) {
     let p = path.to_path_buf();
-    let (res, arch) = cx.op(json!({"ev":"Check","case":case}), move || {
+    let (res, arch) = cx.op(json!({"ev":"Check","case":case,"fin":fin}), move || {
         let r = Archive::open(&p);
         (classify(&r), r.ok())
     });
@@ -221,7 +228,7 @@ fn checkpoint(cx: &Ctx, case: &str, path: &Path, uni: &Uni) {
             Outcome::Panic(_) => ("panic".to_string(), -1, "none".to_string()),
             Outcome::Hang => unreachable!(),
         };
-        cx.trace.ev(json!({"ev":"Read","case":case,"n":a,"res":res,"len":len,"tok":t}));
+        cx.trace.ev(json!({"ev":"Read","case":case,"n":a,"res":res,"len":len,"tok":t,"fin":fin}));
     }
     let r = guarded(|| arch.list());
     let (res, names) = match r {
@@ -233,7 +240,7 @@ fn checkpoint(cx: &Ctx, case: &str, path: &Path, uni: &Uni) {
         Outcome::Done(Err(e)) => (format!("err:{}", variant_name(&e)), vec![]),
         _ => ("panic".to_string(), vec![]),
     };
-    cx.trace.ev(json!({"ev":"List","case":case,"res":res,"names":names}));
+    cx.trace.ev(json!({"ev":"List","case":case,"res":res,"names":names,"fin":fin}));
 }
 
 fn run_history(cx: &Ctx, c: &Value, dir: &Path, seed: u64) {
@@ -280,10 +287,13 @@ fn run_history(cx: &Ctx, c: &Value, dir: &Path, seed: u64) {
         }
     }
     let homes: Vec<Value> = uni.conc.iter().map(|cn| json!((hash_string(cn, hash_type::TABLE_OFFSET) as u64) & (st.hsize - 1))).collect();
-    cx.trace.ev(json!({"ev":"Reset","case":case,"kind":gs(c,"kind"),"ver":gi(c,"ver"),"lf":lf,"at":at,
+    let devs: Vec<String> = c.get("devs").and_then(|d| d.as_array()).map(|a| a.iter().filter_map(|x| x.as_str().map(String::from)).collect()).unwrap_or_default();
+    let mut devs = devs;
+    devs.sort();
+    cx.trace.ev(json!({"ev":"Reset","case":case,"cls":gs(c,"cls"),"ver":gi(c,"ver"),"lf":lf,"at":at,
         "slack":st.slack_bytes,"hsize":st.hsize,"nblocks0":st.nblocks0,"nspecial":st.nspecial - 1,"tail":st.tail,
         "universe":uni.abs,"concrete":uni.conc,"homes":homes,"initial":Value::Object(initial),
-        "devs":c.get("devs").cloned().unwrap_or(json!(""))}));
+        "devs":devs.join("+"),"pred":c.get("pred").cloned().unwrap_or(json!({"kind":"none"})),"nops":ga(c,"ops").len()}));
 
     let mut m: Option<MutableArchive> = None;
     let open = |cx: &Ctx, m: &mut Option<MutableArchive>| -> bool {
@@ -322,7 +332,7 @@ fn run_history(cx: &Ctx, c: &Value, dir: &Path, seed: u64) {
                     opts = opts.fix_key();
                 }
                 let cn = uni.conc_of(n).to_string();
-                let ev = json!({"ev":"Add","case":case,"n":n,"tok":tok(&data),"len":data.len(),"rep":rep,"comp":comp,"enc":enc});
+                let ev = json!({"ev":"Add","case":case,"oi":oi + 1,"n":n,"tok":tok(&data),"len":data.len(),"rep":rep,"comp":comp,"enc":enc});
                 let ma = m.as_mut().unwrap();
                 cx.op(ev, || (classify(&ma.add_file_data(&data, &cn, opts)), ()));
             }
@@ -341,7 +351,21 @@ fn run_history(cx: &Ctx, c: &Value, dir: &Path, seed: u64) {
             }
             "compact" => {
                 let ma = m.as_mut().unwrap();
-                cx.op(json!({"ev":"Compact","case":case}), || (classify(&ma.compact()), ()));
+                // the compacted file has its own table size / special files: re-read the capacity figures
+                cx.op_with(
+                    json!({"ev":"Compact","case":case,"hsize":0,"nspecial":0}),
+                    || {
+                        let r = ma.compact();
+                        let a = ma.archive();
+                        let hs = a.header().hash_table_size;
+                        let sp = ["(listfile)", "(attributes)"].iter().filter(|n| matches!(a.find_file(n), Ok(Some(_)))).count();
+                        (classify(&r), (hs, sp))
+                    },
+                    |ev, v| {
+                        ev["hsize"] = json!(v.0);
+                        ev["nspecial"] = json!(v.1);
+                    },
+                );
             }
             "flush" => {
                 let ma = m.as_mut().unwrap();
@@ -353,7 +377,7 @@ fn run_history(cx: &Ctx, c: &Value, dir: &Path, seed: u64) {
                     drop(ma);
                     ("ok".to_string(), ())
                 });
-                checkpoint(cx, &case, &path, &uni);
+                checkpoint(cx, &case, &path, &uni, false);
                 alive = open(cx, &mut m);
             }
             other => tool_error(&format!("unknown op {other}")),
@@ -365,7 +389,7 @@ fn run_history(cx: &Ctx, c: &Value, dir: &Path, seed: u64) {
             ("ok".to_string(), ())
         });
     }
-    checkpoint(cx, &case, &path, &uni);
+    checkpoint(cx, &case, &path, &uni, true);
     let _ = std::fs::remove_file(&path);
 }
 
